@@ -1,8 +1,15 @@
 """Generated/FileSink.lean from loguru/_file_sink.py (C08, C18): compression format table, the
 normalisation of the format spelling, FileSink defaults (mode), `exist_ok`, and the statement order
 of `Compression.compression`, `FileSink._close_file`, `FileSink._terminate_file`, `FileSink.write`
-(as lists of tags the theorems compare with the order the hand model follows)."""
+(as lists of tags the theorems compare with the order the hand model follows).
+
+Shapes are compared MODULO behaviour-preserving rewrites: local names (alpha-equivalence through a
+bijection), `with a, b:` = nested `with`, and a call of a private helper of the same class / module whose
+body is straight-line is followed one level deep (parameters substituted, `return e` turned into the
+assignment).  What is pinned is the semantic content – which call, with which arguments, in which order,
+under which test – not the source text.  Anything else still fails closed."""
 import ast
+import copy
 
 from extract_lib import Unsupported, emit, find_class, find_func, lean_chars, parse_module
 
@@ -32,36 +39,257 @@ def _calls_in(stmts):
     return out
 
 
+# ----------------------------------------------------------------------------- normalisation
+# methods / functions the model has a counterpart for: never inlined (their *calls* are what is pinned)
+MODELLED = {"_create_path", "_create_dirs", "_create_file", "_close_file", "_reopen_if_needed", "_terminate_file",
+            "_make_glob_patterns", "_make_rotation_function", "_make_retention_function",
+            "_make_compression_function"}
+_SUBLISTS = ("body", "orelse", "finalbody")
+
+
+def _local_names(fn):
+    """parameters and every name bound inside the function (imports excepted: module names are content)"""
+    out = {a.arg for a in fn.args.posonlyargs + fn.args.args + fn.args.kwonlyargs}
+    if fn.args.vararg:
+        out.add(fn.args.vararg.arg)
+    if fn.args.kwarg:
+        out.add(fn.args.kwarg.arg)
+    for node in ast.walk(fn):
+        if isinstance(node, ast.Name) and isinstance(node.ctx, ast.Store):
+            out.add(node.id)
+    out.discard("self")
+    return out
+
+
+def _names_in(node):
+    return {n.id for n in ast.walk(node) if isinstance(n, ast.Name)}
+
+
+class _Subst(ast.NodeTransformer):
+    def __init__(self, mapping):
+        self.mapping = mapping
+
+    def visit_Name(self, node):
+        if node.id in self.mapping:
+            new = copy.deepcopy(self.mapping[node.id])
+            if isinstance(new, ast.Name):
+                new.ctx = node.ctx
+            return new
+        return node
+
+
+def _helper_of(call, cls, tree):
+    """(FunctionDef, skip_self) for `self._h(...)`, `Cls._h(...)`, `_h(...)` with a private, non-modelled `_h`"""
+    f = call.func
+    name, owner, skip = None, None, False
+    if isinstance(f, ast.Attribute) and isinstance(f.value, ast.Name):
+        if f.value.id == "self" and cls is not None:
+            name, owner, skip = f.attr, cls, True
+        elif cls is not None and f.value.id == cls.name:
+            name, owner = f.attr, cls
+    elif isinstance(f, ast.Name):
+        name, owner = f.id, tree
+    if name is None or not name.startswith("_") or name.startswith("__") or name in MODELLED:
+        return None
+    for node in owner.body:
+        if isinstance(node, ast.FunctionDef) and node.name == name:
+            static = any(isinstance(d, ast.Name) and d.id == "staticmethod" for d in node.decorator_list)
+            if owner is tree:
+                return node, False
+            if skip:
+                return node, not static
+            return (node, False) if static else None
+    return None
+
+
+def _inline_call(stmt, cls, tree, counter):
+    """the statements replacing `stmt` when it is `h(args)` / `x = h(args)` for an inlinable helper, else None"""
+    if isinstance(stmt, ast.Expr) and isinstance(stmt.value, ast.Call):
+        call, target = stmt.value, None
+    elif isinstance(stmt, ast.Assign) and len(stmt.targets) == 1 and isinstance(stmt.value, ast.Call):
+        call, target = stmt.value, stmt.targets[0]
+    else:
+        return None
+    found = _helper_of(call, cls, tree)
+    if found is None:
+        return None
+    h, skip_self = found
+    a = h.args
+    params = [x.arg for x in a.args][1 if skip_self else 0:]
+    if a.vararg or a.kwarg or a.kwonlyargs or a.defaults or a.posonlyargs or call.keywords \
+            or len(call.args) != len(params):
+        return None
+    if not all(isinstance(x, (ast.Name, ast.Attribute, ast.Constant)) for x in call.args):
+        return None          # only side-effect-free argument expressions may be substituted
+    stmts = [s for s in h.body if not (isinstance(s, ast.Expr) and isinstance(s.value, ast.Constant))]
+    if not stmts:
+        return None
+    for i, s in enumerate(stmts):
+        last = i == len(stmts) - 1
+        if isinstance(s, ast.Return):
+            if not last:
+                return None
+        elif not isinstance(s, (ast.Assign, ast.Expr, ast.AugAssign)):
+            return None      # straight-line bodies only
+        if any(isinstance(n, (ast.Return, ast.Yield, ast.YieldFrom, ast.Await)) for n in ast.walk(s)) \
+                and not isinstance(s, ast.Return):
+            return None
+    counter[0] += 1
+    tag = "_h%d_" % counter[0]
+    bound = _local_names(h) - set(params)
+    if any(p in bound for p in params):
+        return None          # a parameter that is re-assigned cannot be replaced by the argument
+    mapping = {p: arg for p, arg in zip(params, call.args)}
+    mapping.update({n: ast.Name(id=tag + n, ctx=ast.Load()) for n in bound})
+    out = []
+    for s in stmts:
+        s2 = _Subst(mapping).visit(copy.deepcopy(s))
+        if isinstance(s2, ast.Return):
+            if s2.value is None:
+                if target is not None:
+                    return None
+                continue
+            if target is not None:
+                s2 = ast.Assign(targets=[copy.deepcopy(target)], value=s2.value, lineno=0, col_offset=0)
+            elif any(isinstance(n, ast.Call) for n in ast.walk(s2.value)):
+                s2 = ast.Expr(value=s2.value)
+            else:
+                continue
+        out.append(ast.fix_missing_locations(s2))
+    if target is not None and not (stmts and isinstance(stmts[-1], ast.Return)):
+        return None
+    return out
+
+
+def _norm_stmts(stmts, cls, tree, counter):
+    out = []
+    for s in stmts:
+        if isinstance(s, ast.With) and len(s.items) > 1:          # `with a, b:` = nested with
+            inner = ast.With(items=s.items[1:], body=s.body, lineno=0, col_offset=0)
+            s = ast.With(items=s.items[:1], body=[inner], lineno=0, col_offset=0)
+        repl = _inline_call(s, cls, tree, counter)
+        if repl is not None:
+            out.extend(repl)
+            continue
+        for field in _SUBLISTS:
+            if isinstance(getattr(s, field, None), list) and not isinstance(s, (ast.FunctionDef, ast.ClassDef)):
+                setattr(s, field, _norm_stmts(getattr(s, field), cls, tree, counter))
+        if isinstance(s, ast.Try):
+            for hnd in s.handlers:
+                hnd.body = _norm_stmts(hnd.body, cls, tree, counter)
+        out.append(s)
+    return out
+
+
+def norm_func(fn, cls, tree):
+    """a copy of `fn` with helper calls followed one level deep and `with` items un-merged"""
+    fn = copy.deepcopy(fn)
+    fn.body = _norm_stmts([s for s in fn.body], cls, tree, [0])
+    return ast.fix_missing_locations(fn)
+
+
+class Alpha:
+    """structural equality of ASTs modulo a bijection between the local names of two functions"""
+
+    def __init__(self, locals_a, locals_b):
+        self.la, self.lb, self.ab, self.ba = set(locals_a), set(locals_b), {}, {}
+
+    def _name(self, a, b):
+        ia, ib = a in self.la, b in self.lb
+        if not ia and not ib:
+            return a == b
+        if ia != ib:
+            return False
+        if self.ab.get(a, b) != b or self.ba.get(b, a) != a:
+            return False
+        self.ab[a], self.ba[b] = b, a
+        return True
+
+    def _eq(self, x, y):
+        if isinstance(x, ast.AST):
+            if type(x) is not type(y):
+                return False
+            if isinstance(x, ast.Name):
+                return self._name(x.id, y.id)
+            if isinstance(x, ast.arg):
+                return self._name(x.arg, y.arg)
+            for (fa, va), (fb, vb) in zip(ast.iter_fields(x), ast.iter_fields(y)):
+                if fa != fb or not self._eq(va, vb):
+                    return False
+            return True
+        if isinstance(x, list):
+            return isinstance(y, list) and len(x) == len(y) and all(self._eq(a, b) for a, b in zip(x, y))
+        return x == y
+
+    def eq(self, x, y):
+        """compare; the bijection is extended only when the comparison succeeds"""
+        saved = (dict(self.ab), dict(self.ba))
+        if self._eq(x, y):
+            return True
+        self.ab, self.ba = saved
+        return False
+
+    def actual(self, ref_name):
+        return self.ba.get(ref_name)
+
+
+def _ref(src):
+    return ast.parse(src).body
+
+
+def _ref_locals(stmts, extra=()):
+    out = set(extra)
+    for s in stmts:
+        for n in ast.walk(s):
+            if isinstance(n, ast.Name) and isinstance(n.ctx, ast.Store):
+                out.add(n.id)
+    return out
+
+
+def same_body(fn, cls, tree, ref_src, what):
+    """the normalised body of `fn` equals the reference function `ref_src` modulo local names"""
+    ref = ast.parse(ref_src).body[0]
+    f = norm_func(fn, cls, tree)
+    body = [s for s in f.body if not (isinstance(s, ast.Expr) and isinstance(s.value, ast.Constant))]
+    al = Alpha(_local_names(f), _local_names(ref))
+    if not (al.eq(f.args, ref.args) and al.eq(body, ref.body)):
+        raise Unsupported("%s changed: %s" % (what, "; ".join(ast.unparse(s) for s in body)[:300]))
+    return al
+
+
 def generate():
     errors = []
     body = "import LoguruModel.FileSink.Base\nnamespace FileSink.Gen\nopen FileSink\n\n"
     try:
         tree, _ = parse_module("_file_sink.py")
         # ---------------------------------------------------------------- format table
-        fn = find_func(tree, "_make_compression_function", cls="FileSink")
+        fsink = find_class(tree, "FileSink")
+        fn = norm_func(find_func(tree, "_make_compression_function", cls="FileSink"), fsink, tree)
         st = fn.body
-        if not (isinstance(st[0], ast.If) and ast.unparse(st[0].test) == "compression is None"
+        al = Alpha(_local_names(fn), {"compression", "ext", "compress"})
+        if not (isinstance(st[0], ast.If) and al.eq(st[0].test, _ref("compression is None")[0].value)
                 and ast.unparse(st[0].body[0]) == "return None"):
             raise Unsupported("_make_compression_function: first statement is not the None test")
         s_if = st[1]
-        if not (isinstance(s_if, ast.If) and ast.unparse(s_if.test) == "isinstance(compression, str)"):
+        if not (isinstance(s_if, ast.If) and al.eq(s_if.test, _ref("isinstance(compression, str)")[0].value)):
             raise Unsupported("_make_compression_function: second statement is not the str test")
         norm = s_if.body[0]
-        if ast.unparse(norm) != "ext = compression.strip().lstrip('.')":
+        if not al.eq(norm, _ref("ext = compression.strip().lstrip('.')")[0]):
             raise Unsupported("normalisation of the spelling changed: " + ast.unparse(norm))
+        ext_name = al.actual("ext")
         rows = []
         node = s_if.body[1]
         kinds = {"Compression.copy_compress": "copy", "Compression.add_compress": "add",
                  "Compression.write_compress": "write"}
         while True:
             if not (isinstance(node, ast.If) and isinstance(node.test, ast.Compare)
-                    and ast.unparse(node.test.left) == "ext" and isinstance(node.test.ops[0], ast.Eq)
+                    and ast.unparse(node.test.left) == ext_name and isinstance(node.test.ops[0], ast.Eq)
                     and isinstance(node.test.comparators[0], ast.Constant)):
                 raise Unsupported("format chain: unexpected test " + ast.unparse(node)[:60])
             name = node.test.comparators[0].value
             assigns = [s for s in node.body if isinstance(s, ast.Assign)]
             others = [s for s in node.body if not isinstance(s, (ast.Assign, ast.Import))]
-            if len(assigns) != 1 or others or ast.unparse(assigns[0].targets[0]) != "compress":
+            if len(assigns) != 1 or others or not al.eq(assigns[0].targets[0], _ref("compress = 0")[0].targets[0]):
                 raise Unsupported("format %s: body shape" % name)
             call = assigns[0].value
             if not (isinstance(call, ast.Call) and ast.unparse(call.func) == "partial" and len(call.args) == 1):
@@ -84,8 +312,8 @@ def generate():
                 raise Unsupported("format chain does not end with raise ValueError")
             break
         ret = s_if.body[2]
-        want = "return partial(Compression.compression, ext='.' + ext, compress_function=compress)"
-        if ast.unparse(ret) != want:
+        want = "partial(Compression.compression, ext='.' + ext, compress_function=compress)"
+        if not (isinstance(ret, ast.Return) and len(s_if.body) == 3 and al.eq(ret.value, _ref(want)[0].value)):
             raise Unsupported("compression partial changed: " + ast.unparse(ret))
         body += "/-- `(ext, kind, opener, mode, extra keywords)` in the order of the if-chain -/\n"
         body += "def formatTable : List (Py.Str × CompKind × Py.Str × Py.Str × Py.Str) := [\n"
@@ -97,52 +325,56 @@ def generate():
         # ---------------------------------------------------------------- compress functions
         comp = find_class(tree, "Compression")
         for fname, meth in (("add_compress", "add"), ("write_compress", "write")):
-            f = find_func(comp, fname)
-            src = ast.unparse(f.body[0])
-            want = ("with opener(path_out, **kwargs) as f_comp:\n    f_comp.%s(path_in, os.path.basename(path_in))" % meth)
-            if len(f.body) != 1 or src != want:
-                raise Unsupported("%s changed: %s" % (fname, src))
-        f = find_func(comp, "copy_compress")
-        want = ("with open(path_in, 'rb') as f_in:\n    with opener(path_out, **kwargs) as f_out:\n"
-                "        shutil.copyfileobj(f_in, f_out)")
-        if len(f.body) != 1 or ast.unparse(f.body[0]) != want:
-            raise Unsupported("copy_compress changed: " + ast.unparse(f.body[0]))
+            same_body(find_func(comp, fname), comp, tree,
+                      "def f(path_in, path_out, opener, **kwargs):\n"
+                      "    with opener(path_out, **kwargs) as f_comp:\n"
+                      "        f_comp.%s(path_in, os.path.basename(path_in))\n" % meth, fname)
+        same_body(find_func(comp, "copy_compress"), comp, tree,
+                  "def f(path_in, path_out, opener, **kwargs):\n"
+                  "    with open(path_in, 'rb') as f_in:\n"
+                  "        with opener(path_out, **kwargs) as f_out:\n"
+                  "            shutil.copyfileobj(f_in, f_out)\n", "copy_compress")
         body += "/-- tar/zip members are stored under `os.path.basename(path_in)` -/\ndef memberIsBasename : Bool := true\n\n"
 
         # ---------------------------------------------------------------- Compression.compression order
-        f = find_func(comp, "compression")
+        f = norm_func(find_func(comp, "compression"), comp, tree)
+        ref_locals = {"path_in", "ext", "compress_function", "path_out", "creation_time", "root", "ext_before",
+                      "renamed_path"}
+        al = Alpha(_local_names(f), ref_locals)
+        if not al.eq(f.args, ast.parse("def f(path_in, ext, compress_function): pass").body[0].args):
+            raise Unsupported("Compression.compression: parameters changed")
+        templates = [("pathOut", _ref("path_out = '{}{}'.format(path_in, ext)")[0]),
+                     ("compress", _ref("compress_function(path_in, path_out)")[0]),
+                     ("removeSource", _ref("os.remove(path_in)")[0])]
+        collision = _ref("if os.path.exists(path_out):\n"
+                         "    creation_time = get_ctime(path_out)\n"
+                         "    root, ext_before = os.path.splitext(path_in)\n"
+                         "    renamed_path = generate_rename_path(root, ext_before + ext, creation_time)\n"
+                         "    os.rename(path_out, renamed_path)\n")[0]
         tags = []
         for s in f.body:
-            src = ast.unparse(s)
-            if src == "path_out = '{}{}'.format(path_in, ext)":
-                tags.append("pathOut")
-            elif isinstance(s, ast.If) and ast.unparse(s.test) == "os.path.exists(path_out)":
-                inner = [ast.unparse(x) for x in s.body]
-                if inner != ["creation_time = get_ctime(path_out)",
-                             "root, ext_before = os.path.splitext(path_in)",
-                             "renamed_path = generate_rename_path(root, ext_before + ext, creation_time)",
-                             "os.rename(path_out, renamed_path)"] or s.orelse:
-                    raise Unsupported("collision branch changed: %r" % inner)
+            hit = [t for t, tpl in templates if al.eq(s, tpl)]
+            if hit:
+                tags.append(hit[0])
+            elif isinstance(s, ast.If) and al.eq(s.test, collision.test):
+                if not al.eq(s.body, collision.body) or s.orelse:
+                    raise Unsupported("collision branch changed: %r" % [ast.unparse(x) for x in s.body])
                 tags.append("collisionRename")
-            elif src == "compress_function(path_in, path_out)":
-                tags.append("compress")
-            elif src == "os.remove(path_in)":
-                tags.append("removeSource")
             else:
-                raise Unsupported("Compression.compression: unexpected statement " + src)
+                raise Unsupported("Compression.compression: unexpected statement " + ast.unparse(s))
         body += "def compressionOrder : List CStep := [%s]\n\n" % ", ".join("CStep." + t for t in tags)
 
         # ---------------------------------------------------------------- generate_rename_path
-        f = find_func(tree, "generate_rename_path")
-        srcs = [ast.unparse(s) for s in f.body]
-        want = ["creation_datetime = datetime.datetime.fromtimestamp(creation_time)",
-                "date = FileDateFormatter(creation_datetime)",
-                "renamed_path = '{}.{}{}'.format(root, date, ext)",
-                "counter = 1",
-                "while os.path.exists(renamed_path):\n    counter += 1\n    renamed_path = '{}.{}.{}{}'.format(root, date, counter, ext)",
-                "return renamed_path"]
-        if srcs != want:
-            raise Unsupported("generate_rename_path changed: %r" % srcs)
+        same_body(find_func(tree, "generate_rename_path"), None, tree,
+                  "def f(root, ext, creation_time):\n"
+                  "    creation_datetime = datetime.datetime.fromtimestamp(creation_time)\n"
+                  "    date = FileDateFormatter(creation_datetime)\n"
+                  "    renamed_path = '{}.{}{}'.format(root, date, ext)\n"
+                  "    counter = 1\n"
+                  "    while os.path.exists(renamed_path):\n"
+                  "        counter += 1\n"
+                  "        renamed_path = '{}.{}.{}{}'.format(root, date, counter, ext)\n"
+                  "    return renamed_path\n", "generate_rename_path")
         body += "/-- first counter value used by `generate_rename_path` (1 = name without counter) -/\n"
         body += "def renameFirstCounter : Nat := 1\n\n"
 
@@ -157,17 +389,23 @@ def generate():
         kw = [s for s in init.body if ast.unparse(s).startswith("self._kwargs =")]
         if [ast.unparse(s) for s in kw] != ["self._kwargs = {**kwargs, 'mode': mode, 'buffering': buffering, 'encoding': self.encoding}"]:
             raise Unsupported("FileSink.__init__: _kwargs")
-        f = find_func(cls, "_create_file")
-        if ast.unparse(f.body[0]) != "self._file = open(path, **self._kwargs)" or \
-                ast.unparse(f.body[1]) != "self._file_path = path":
+        f = norm_func(find_func(cls, "_create_file"), cls, tree)
+        al = Alpha(_local_names(f), {"path"})
+        if len(f.body) < 2 or not al.eq(f.body[:2], _ref("self._file = open(path, **self._kwargs)\nself._file_path = path")):
             raise Unsupported("_create_file changed")
-        f = find_func(cls, "_create_dirs")
-        if [ast.unparse(s) for s in f.body] != ["dirname = os.path.dirname(path)", "os.makedirs(dirname, exist_ok=True)"]:
-            raise Unsupported("_create_dirs changed: %r" % [ast.unparse(s) for s in f.body])
+        same_body(find_func(cls, "_create_dirs"), cls, tree,
+                  "def f(self, path):\n"
+                  "    dirname = os.path.dirname(path)\n"
+                  "    os.makedirs(dirname, exist_ok=True)\n", "_create_dirs")
         body += "def makedirsExistOk : Bool := true\n\n"
 
-        f = find_func(cls, "_close_file")
-        srcs = [ast.unparse(s) for s in f.body]
+        f = norm_func(find_func(cls, "_close_file"), cls, tree)
+        cl = Alpha(_local_names(f), {"file"})
+        srcs = []
+        for st_ in f.body:
+            # the bound file object may carry any local name
+            hit = [t for t in ("file = self._file", "file.flush()", "file.close()") if cl.eq(st_, _ref(t)[0])]
+            srcs.append(hit[0] if hit else ast.unparse(st_))
         # `file = self._file` binds the object first (since e6154e8 it is flushed, forgotten, then closed);
         # the older spelling through `self._file` is still recognised so that a revert changes the generated
         # ORDER (and re-opens the proofs) instead of merely failing closed
@@ -179,7 +417,7 @@ def generate():
         body += "def closeOrder : List CloseStep := [%s]\n\n" % ", ".join("CloseStep." + tagmap[s] for s in srcs)
 
         # order of the side-effecting calls in _terminate_file and write
-        f = find_func(cls, "_terminate_file")
+        f = norm_func(find_func(cls, "_terminate_file"), cls, tree)
         calls = [c for c in _calls_in(f.body) if c.startswith(("self._", "os.", "glob.", "get_ctime", "set_ctime",
                                                                 "generate_rename_path"))]
         want = ["self._close_file", "self._create_path", "self._create_dirs", "get_ctime", "os.path.splitext",
@@ -193,7 +431,7 @@ def generate():
             raise Unsupported("_terminate_file tests changed: %r" % tests)
         body += "def terminateOrder : List TStep := [TStep.close, TStep.newPath, TStep.mkdirs, TStep.sameNameRename, " \
                 "TStep.compression, TStep.retention, TStep.createFile]\n\n"
-        f = find_func(cls, "write")
+        f = norm_func(find_func(cls, "write"), cls, tree)
         calls = [c for c in _calls_in(f.body) if c.startswith("self.")]
         want = ["self._create_path", "self._create_dirs", "self._create_file", "self._reopen_if_needed",
                 "self._rotation_function", "self._terminate_file", "self._file.write"]
